@@ -334,4 +334,67 @@ theorem load_guess_mode {α : Type} (s : Stored α) (hm : (s.mode == "A" || s.mo
     (load s).1 = if s.dims.contains "theta_inc" then "A" else "P" := by
   simp [load, hm]
 
+/-! ### a list of incidence angles -/
+
+theorem mapM_ok_mem {A B E : Type} (f : A → Except E B) : ∀ (l : List A) (out : List B), l.mapM f = .ok out →
+    ∀ b ∈ out, ∃ a ∈ l, f a = .ok b := by
+  intro l
+  induction l with
+  | nil =>
+    intro out h b hb
+    simp [List.mapM_nil, pure, Except.pure] at h
+    subst h; simp at hb
+  | cons a l ih =>
+    intro out h b hb
+    rw [List.mapM_cons] at h
+    cases hfa : f a with
+    | error e => rw [hfa] at h; simp [bind, Except.bind] at h
+    | ok b0 =>
+      rw [hfa] at h
+      cases hl : l.mapM f with
+      | error e => rw [hl] at h; simp [bind, Except.bind] at h
+      | ok bs =>
+        rw [hl] at h
+        simp [bind, Except.bind, pure, Except.pure] at h
+        subst h
+        rcases List.mem_cons.mp hb with h1 | h1
+        · exact ⟨a, by simp, by rw [hfa, h1]⟩
+        · obtain ⟨a', ha', hfa'⟩ := ih bs hl b h1
+          exact ⟨a', by simp [ha'], hfa'⟩
+
+/-- **sigma_list_cells**: with a list of incidence angles, every cell of the result sits under its own angle `t` and holds
+    `4π cos θ_t` times the stored intensity selected at `t` - whatever the number of angles and of remaining dimensions -/
+theorem sigmaOver_cells {α : Type} [Add α] [Sub α] [Mul α] [Div α] [Neg α] [OfScientific α] [OfNat α 0] [OfNat α 1] [Transc α]
+    (pi : α) (ang : String → α) (r : Res α) (kw' : Fix) (ts : List String) (out : Res α)
+    (h : r.sigmaOver pi ang kw' ts = .ok out) :
+    ∀ c ∈ out.cells, ∃ t ∈ ts, ∃ x : Res α, r.selectTheta t kw' = .ok x ∧ ∃ c0 ∈ x.cells, c = (t :: c0.1, sigmaLin pi (ang t) c0.2) := by
+  intro c hc
+  unfold Res.sigmaOver at h
+  cases hm : ts.mapM (fun t => do
+      let x ← r.selectTheta t kw'
+      pure (x.mapVals (sigmaLin pi (ang t)), t)) with
+  | error e => rw [hm] at h; simp [bind, Except.bind] at h
+  | ok parts =>
+    rw [hm] at h
+    cases parts with
+    | nil => simp [bind, Except.bind, throw, throwThe, MonadExceptOf.throw] at h
+    | cons p0 ps =>
+      simp only [bind, Except.bind, pure, Except.pure] at h
+      injection h with h
+      subst h
+      simp only [List.mem_flatMap, List.mem_map] at hc
+      obtain ⟨p, hp, c1, hc1, rfl⟩ := hc
+      obtain ⟨t, ht, hft⟩ := mapM_ok_mem _ ts (p0 :: ps) hm p hp
+      cases hx : r.selectTheta t kw' with
+      | error e => rw [hx] at hft; simp [bind, Except.bind] at hft
+      | ok x =>
+        rw [hx] at hft
+        simp only [bind, Except.bind, pure, Except.pure] at hft
+        injection hft with hft
+        subst hft
+        simp only [Res.mapVals, List.mem_map] at hc1
+        obtain ⟨c0, hc0, rfl⟩ := hc1
+        exact ⟨t, ht, x, hx, c0, hc0, rfl⟩
+
+
 end Smrt.Props.C19
